@@ -125,6 +125,7 @@ pub(crate) mod verif_longterm {
     #[cfg_attr(kani, kani::proof)]
     #[cfg_attr(kani, kani::unwind(40))]
     #[cfg_attr(kani, kani::stub(<crate::error::Error as std::convert::From<std::io::Error>>::from, crate::verif_support::stub_error_from_io))]
+    #[cfg_attr(kani, kani::stub(std::time::SystemTime::now, crate::key::online::verif_online::stub_now_any))]
     #[cfg_attr(not(kani), test)]
     fn c10_cert_ietf_then_classic() {
         cert_body(Version::RfcDraft13, Version::Google);
@@ -133,6 +134,7 @@ pub(crate) mod verif_longterm {
     #[cfg_attr(kani, kani::proof)]
     #[cfg_attr(kani, kani::unwind(40))]
     #[cfg_attr(kani, kani::stub(<crate::error::Error as std::convert::From<std::io::Error>>::from, crate::verif_support::stub_error_from_io))]
+    #[cfg_attr(kani, kani::stub(std::time::SystemTime::now, crate::key::online::verif_online::stub_now_any))]
     #[cfg_attr(not(kani), test)]
     fn c10_cert_classic_twice() {
         cert_body(Version::Google, Version::Google);
